@@ -272,6 +272,7 @@ def main():
 
     # ------------------------------------- SaveLoad behaviours -> real code
     replay_behaviours(ck, qr, numpy, tmp)
+    savedir_behaviours(ck, qr, numpy, tmp)
 
     # ------------------------------------------------------- export matrix
     class Holder(qr.DFunction):
@@ -526,6 +527,99 @@ def replay_behaviours(ck, qr, numpy, tmp):
         raise MachineryFailure("SaveLoad replay vacuous: %d loads" % nloads)
     ck.note("SaveLoad replay: %d saves, %d loads, %d loads of objects saved "
             "with basis tag >= 2" % (nsaves, nloads, ndeep))
+
+
+def savedir_behaviours(ck, qr, numpy, tmp):
+    """SaveDir.tla: objects saved into one directory with explicit and
+    automatic tags (every order of calls in the bound); loaddir must return
+    under every tag the object saved under it last, and an automatically
+    tagged save never replaces an entry.  Simulated histories are replayed
+    with real objects of several classes."""
+    from harness import tlaparse
+    ck.tlc("SaveDir", "SaveDir_max1.cfg", workers=4)
+    ck.tlc("SaveDir", "SaveDir_last1.cfg", count=False,
+           expect_violation="NothingLost")
+    ck.tlc("SaveDir", "SaveDir_len1.cfg", count=False,
+           expect_violation="NothingLost")
+    nsim = 300 if ck.thorough else 60
+    d = tempfile.mkdtemp(prefix="c18sd_")
+    try:
+        pref = os.path.join(d, "tr")
+        ck.tlc("SaveDir", "SaveDir_sim.cfg",
+               simulate="file=%s,num=%d" % (pref, nsim), depth=7, workers=1,
+               seed=ck.seed + 9, count=False)
+        behs = tlaparse.load_behaviours(pref)
+    finally:
+        shutil.rmtree(d, ignore_errors=True)
+    # canonical histories (0 = no tag given)
+    seqs = [[3, 2, 0], [2, 0], [0, 3, 0], [0, 0, 2, 0], [5, 1, 0, 0]]
+    for beh in behs:
+        seqs.append([int(st["_args"][0]) for act, st in beh[1:]])
+    seen = set()
+
+    def make(k):
+        kind = k % 3
+        if kind == 0:
+            return qr.DFunction(qr.TimeAxis(0.0, 4, 1.0),
+                                numpy.arange(4) * (1 + 1j) + k)
+        if kind == 1:
+            return qr.ReducedDensityMatrix(
+                data=numpy.diag([k, 1.0, 2.0]).astype(complex))
+        return qr.Hamiltonian(data=numpy.diag([0.0, float(k), 2.0 * k]))
+
+    def ident(o):
+        dd = numpy.array(o.data)
+        return int(round(float(numpy.real(dd[0] if dd.ndim == 1 else
+                                          dd[1, 1] if isinstance(
+                                              o, qr.Hamiltonian) else
+                                          dd[0, 0]))))
+    for seq in seqs:
+        if tuple(seq) in seen or not seq:
+            continue
+        seen.add(tuple(seq))
+        dname = os.path.join(tmp, "sdir_%d" % len(seen))
+        rp = dict(kind="savedir", tags=seq)
+        with ck.guarded("savedir-round-trip", "savedir", rp, rp):
+            expected = {}
+            drift = None
+            silently = None
+            for k, t in enumerate(seq, start=1):
+                obj = make(k)
+                ints = [x for x in expected if isinstance(x, int)]
+                spec_tag = t if t else ((max(ints) + 1) if ints else 1)
+                if t == 0:
+                    obj.savedir(dname)
+                else:
+                    obj.savedir(dname, tag=t)
+                now = {tg: ident(o) for tg, o in make(1).loaddir(dname
+                                                                 ).items()}
+                mine = [tg for tg, i in now.items() if i == k]
+                if len(mine) != 1:
+                    silently = "object %d saved but not loadable" % k
+                    break
+                tag = mine[0]
+                if t == 0 and tag in expected and silently is None:
+                    silently = ("automatically tagged save %d replaced the "
+                                "object stored under tag %r" % (k, tag))
+                if tag != spec_tag and drift is None:
+                    drift = (k, tag, spec_tag)
+                expected[tag] = k
+            got = make(1).loaddir(dname)
+            gotmap = {t: ident(o) for t, o in got.items()}
+            ck.case("savedir-round-trip", tuple(seq),
+                    nontrivial=0 in seq and any(x > 0 for x in seq),
+                    sample=dict(rp, loaded=sorted(gotmap.items())))
+            if silently or gotmap != expected:
+                ck.violation("savedir-round-trip", "savedir:lost-object",
+                             dict(rp, loaded=sorted(gotmap.items()),
+                                  expected=sorted(expected.items()),
+                                  what=silently), rp)
+            elif drift:
+                ck.model_drift("savedir %r: save %d got the automatic tag %r, "
+                               "the specification assigns %r (nothing lost)"
+                               % ((seq,) + drift))
+        shutil.rmtree(dname, ignore_errors=True)
+        ck.traces_validated += 1
 
 
 def _reset(qr):
